@@ -192,6 +192,37 @@ func (rp *report) violation(r *Replay) bool {
 	return true
 }
 
+// canaries replays the fixed witnesses of listed findings (/verif/known/<property>-*.json). The main
+// exploration avoids the input feature behind such a finding by construction; the canary keeps
+// reporting it (KNOWN-FINDING while it is listed and still reproduces, VIOLATION if it is not listed).
+func (rp *report) canaries() int {
+	files, _ := filepath.Glob(filepath.Join(verifRoot, "known", rp.prop+"-*.json"))
+	sort.Strings(files)
+	n := 0
+	for _, f := range files {
+		b, err := os.ReadFile(f)
+		if err != nil {
+			infra("canary %s: %v", f, err)
+		}
+		var r Replay
+		if err := json.Unmarshal(b, &r); err != nil {
+			infra("canary %s does not parse: %v", f, err)
+		}
+		_, v := runReplay(&r)
+		if v.Infra != "" {
+			infra("canary %s: %s", f, v.Infra)
+		}
+		if !v.Violated {
+			fmt.Printf("note: the witness %s of a listed finding no longer reproduces (%s)\n", filepath.Base(f), v.Desc)
+			continue
+		}
+		n++
+		r.Note = v.Desc
+		rp.violation(&r)
+	}
+	return n
+}
+
 func (rp *report) exitCode() int {
 	if rp.violations > 0 {
 		return 1
